@@ -223,6 +223,8 @@ def check(an, rep, tier):
             '' if raised else 'inconsistent option lengths are not rejected')
     from .. import rules_proto as _RPZ
     _RPZ.check_none_vs_zero(prog, rep, modules={'grid', 'stat'})
+    from .. import rules_api as _RA
+    _RA.check_memoised(prog, rep, modules={'grid', 'stat'})
     rep.floor('S-layout', 2, 'flat grid order')
     rep.floor('S-cdf', 2, 'CDF step tables')
     rep.floor('F-inverse', 2, 'round trips')
